@@ -76,6 +76,16 @@ def theory():
     T.externals['jax.numpy.cos'] = lambda interp, v: cos(B.to_real(v))
     T.externals['jax.numpy.sin'] = lambda interp, v: sin(B.to_real(v))
     T.trig = (cos, sin)
+    # floats as reals: `.astype(<dtype of a Stokes component>)` of an element is that element (rounding not modelled)
+    def number_attr(interp, v, name):
+        if name == 'astype':
+            return PyFunc(lambda interp, *a, **k: v, 'astype')
+        if name == 'dtype':
+            from pyvc.values import Ext as _Ext
+            return _Ext('element.dtype')
+        return None
+    T.number_attr = number_attr
+    T.sort_attr['Real'] = lambda interp, v, name: number_attr(interp, v, name)
     return T
 
 
